@@ -76,8 +76,9 @@ RLine(tab, listo, num, body, indent) ==
         shown == IF ind > 0 THEN ind ELSE 0
         hdr == (IF num = 0 THEN Spaces(5) ELSE Pad5(Dec(num))) \o (IF Bit(listo, 0) = 1 THEN <<32>> ELSE <<>>) \o Spaces(shown)
     IN [st |-> t.st, out |-> hdr \o t.out \o <<10>>,
-        \* the statement fixes indentation for properly nested loops only
-        negative |-> ind < 0,
+        \* the statement fixes indentation for properly nested loops only: the depth after a line must not be
+        \* negative (a complete FOR ... NEXT on one line is properly nested although NEXT is counted first)
+        negative |-> ind + (IF Bit(listo, 1) = 1 THEN 2 * t.f ELSE 0) + (IF Bit(listo, 2) = 1 THEN 2 * t.r ELSE 0) < 0,
         indent |-> ind + (IF Bit(listo, 1) = 1 THEN 2 * t.f ELSE 0) + (IF Bit(listo, 2) = 1 THEN 2 * t.r ELSE 0)]
 
 \* big-endian:  0D hi lo len body...   end: 0D FF <EOF>
